@@ -10,6 +10,7 @@ import Adb.Model.Wire
 import Adb.Model.Lists
 import Adb.Model.Url
 import Adb.Model.ContentBlocking
+import Adb.Model.CosmeticParse
 /-
   One-line-in / one-line-out driver.  Every answer has the form  `M=<model> S=<spec> D=<0|1>`:
   the output of the model that mirrors the code, the output of the reference semantics, and whether
@@ -136,6 +137,32 @@ def step (line : String) : String :=
       ans (optHex (Removeparam.rewrittenUrl important url names))
           (optHex (Removeparam.spec important url names)) true
     | _, _ => "bad-op"
+  -- the cosmetic rule parser and the scriptlet-argument parser
+  | ["cparse", l] => match unhex l with
+      | some line =>
+        let showO (o : Option (List Hash)) : String := match o with
+          | none => "-"
+          | some v => "+" ++ ",".intercalate (v.map toString)
+        let o := match CosmeticParse.parseCosmetic line with
+          | .ok r =>
+            let (ak, aa) := match r.action with
+              | none => ("-", "")
+              | some .remove => ("Remove", "")
+              | some (.style a) => ("Style", hex a)
+              | some (.removeAttr a) => ("RemoveAttr", hex a)
+              | some (.removeClass a) => ("RemoveClass", hex a)
+            ";".intercalate [showO r.locs.entities, showO r.locs.hostnames, showO r.locs.notEntities,
+              showO r.locs.notHostnames, showBool r.unhide, showBool r.scriptInject, hex r.selector, ak, aa]
+          | .error e => "ERR:" ++ e
+        ans o o (isAsciiStr line)
+      | none => "bad-op"
+  | ["sargs", a] => match unhex a with
+      | some args =>
+        let o := match CosmeticParse.parseScriptletArgs args with
+          | some l => "+" ++ ",".intercalate (l.map hex)
+          | none => "NONE"
+        ans o o true
+      | none => "bad-op"
   -- C20: content-blocking conversion (one rule / a whole set)
   | ["cbn", item] => match parseCbItem item with
       | some (.net r raw) =>
